@@ -21,7 +21,9 @@ package s2
 //@    0 <= s.pendingAdditionsPos && s.pendingAdditionsPos <= s.nextID && s.nextID < 1<<30 &&
 //@    len(s.shapes) == int(s.nextID) &&
 //@    (forall k int32 :: k >= s.nextID || k < 0 ==> !vcMapHas(s.shapes, k))
-//@ spec func vcSI(s *ShapeIndex) bool = vcSIcore(s) && (s.status == fresh || s.status == stale) &&
+// nothing indexed yet (no update has run since creation / Reset) means the cell list and the cell map are empty
+//@ spec func vcUnbuiltEmpty(s *ShapeIndex) bool = s.pendingAdditionsPos == 0 ==> len(s.cells) == 0 && len(s.cellMap) == 0 && len(s.pendingRemovals) == 0
+//@ spec func vcSI(s *ShapeIndex) bool = vcSIcore(s) && vcUnbuiltEmpty(s) && (s.status == fresh || s.status == stale) &&
 //@    (s.status == fresh ==> s.pendingAdditionsPos == s.nextID && len(s.pendingRemovals) == 0)
 
 //@ func NewShapeIndex() *ShapeIndex
@@ -67,22 +69,28 @@ package s2
 
 //@ func (s *ShapeIndex) updateFaceEdges(face int, faceEdges []faceEdge, t *tracker)
 //@   assumed "recursive clipping with interior pointers: body outside the subset; it calls shrinkToFit, skipCellRange and updateEdges with the lock still held and only changes the cell list and cell map"
-//@   requires vcFirstUpdate(s) && 0 <= face && face < 6
-//@   modifies s.cells, s.cellMap, *t
+//@   requires vcFirstUpdate(s) && 0 <= face && face < 6 && t != nil
+//@   requires [starts-empty] face == 0 ==> len(s.cells) == 0 && len(s.cellMap) == 0
+//@   modifies s.cells, s.cellMap, s.cellMap{*}, *t
 //@   ensures s.cellMap != nil
+//@   ensures [nothing-to-do] len(faceEdges) == 0 && old(len(t.shapeIDs)) == 0 ==> len(s.cells) == old(len(s.cells)) && len(s.cellMap) == old(len(s.cellMap)) && len(t.shapeIDs) == 0
 
 //@ func newTracker() *tracker
-//@   assumed "allocates the interior tracker"
-//@   ensures result != nil && vcFresh(result)
+//@   assumed "allocates the interior tracker (no shape is being tracked yet)"
+//@   ensures result != nil && vcFresh(result) && len(result.shapeIDs) == 0
 
 //@ func (s *ShapeIndex) applyUpdatesInternal()
-//@   requires vcUpdating(s)
-//@   modifies s.cells, s.cellMap, s.pendingRemovals, s.pendingAdditionsPos
-//@   ensures [applied] vcSIcore(s) && s.pendingAdditionsPos == s.nextID && len(s.pendingRemovals) == 0
+//@   requires vcUpdating(s) && vcUnbuiltEmpty(s)
+//@   modifies s.cells, s.cellMap, s.cellMap{*}, s.pendingRemovals, s.pendingAdditionsPos
+//@   ensures [applied] vcSIcore(s) && vcUnbuiltEmpty(s) && s.pendingAdditionsPos == s.nextID && len(s.pendingRemovals) == 0
 //@   ensures [held] vcHeld(&s.mu)
-//@   loop 1 (rangeindex int): invariant vcFirstUpdate(s)
-//@   loop 2 (id int32): invariant vcFirstUpdate(s)
-//@   loop 3 (face int): invariant vcFirstUpdate(s) && 0 <= face && face <= 6
+//@   loop 1 (rangeindex int, t *tracker, allEdges [][]faceEdge): invariant vcFirstUpdate(s) && len(s.cells) == 0 && len(s.cellMap) == 0 && t != nil && len(allEdges) == 6
+//@   loop 1: invariant [idle] len(s.pendingRemovals) == 0 ==> len(t.shapeIDs) == 0 && (forall f int :: 0 <= f && f < 6 ==> len(allEdges[f]) == 0)
+//@   loop 1: invariant [removals] len(s.pendingRemovals) == old(len(s.pendingRemovals)) || s.pendingAdditionsPos == 0
+//@   loop 2 (id int32, t *tracker, allEdges [][]faceEdge): invariant vcFirstUpdate(s) && len(s.cells) == 0 && len(s.cellMap) == 0 && t != nil && len(allEdges) == 6 && s.pendingAdditionsPos <= id
+//@   loop 2: invariant [idle] s.nextID == 0 ==> len(t.shapeIDs) == 0 && (forall f int :: 0 <= f && f < 6 ==> len(allEdges[f]) == 0)
+//@   loop 3 (face int, t *tracker, allEdges [][]faceEdge): invariant vcFirstUpdate(s) && 0 <= face && face <= 6 && t != nil && len(allEdges) == 6 && (face == 0 ==> len(s.cells) == 0 && len(s.cellMap) == 0)
+//@   loop 3: invariant [idle] s.nextID == 0 ==> len(t.shapeIDs) == 0 && len(s.cells) == 0 && len(s.cellMap) == 0 && (forall f int :: 0 <= f && f < 6 ==> len(allEdges[f]) == 0)
 
 //@ func (s *ShapeIndex) maybeApplyUpdates()
 //@   requires vcSI(s) && !vcHeld(&s.mu)
@@ -118,11 +126,6 @@ package s2
 //@ func (p *PaddedCell) ShrinkToFit(rect r2.Rect) CellID
 //@   assumed "float geometry"
 //@   requires p != nil
-
-//@ func (s *ShapeIndexIterator) LocateCellID(target CellID) CellRelation
-//@   assumed "verified under C06"
-//@   requires s != nil
-//@   modifies *s
 
 // shrinkToFit is reached only from the update path (lock held, status not fresh, first update).
 //@ func (s *ShapeIndex) shrinkToFit(pcell *PaddedCell, bound r2.Rect) CellID
@@ -194,7 +197,8 @@ package s2
 //@ func (p *Polygon) initEdgesAndIndex()
 //@   requires p != nil && (forall k int :: 0 <= k && k < len(p.loops) ==> p.loops[k] != nil)
 //@   modifies p.numEdges, p.cumulativeEdges, p.index
-//@   ensures [index] p.index != nil
+//@   ensures [index] p.index != nil && vcFresh(p.index)
+//@   ensures [fresh-index] vcSI(p.index) && p.index.nextID == 1 && p.index.pendingAdditionsPos == 0 && p.index.status == stale && vcMapHas(p.index.shapes, 0) && p.index.shapes[0] == Shape(p)
 //@   loop 1 (rangeindex int): invariant p != nil
 
 // ---------------------------------------------------------------- the unported incremental path
